@@ -36,6 +36,9 @@ CHECKS = {
  "C07": ("exploration", "store invariants walked under the store's own lock after every operation; capacity/eviction at exactly 2^20 clients; concurrent histories under the race detector checked for linearizability with porcupine against the code's own sequential behaviour",
          "Held on all histories: structure and ranking after every operation, eviction exactly as stated at capacity, no race report in core/server, every recorded concurrent history linearizable.",
          "hook level; linearizability below capacity (partition by client); porcupine timeout = inconclusive; reach of the race detector = interleavings the scheduler produced (counted in the evidence)", "3/C07"),
+ "C09": ("exploration", "runtime monitor on real sockets: raw UDP peer against the real IP and SCION listeners in a child process, 'no reply' decided by the ordering of a sentinel request, replies attributed by unique origin timestamps",
+         "Complete first-byte space x boundary lengths x remainder kinds plus valid/invalid NTS requests over IP and SCION (service port and end-host port, empty and hand-built paths); every datagram's reply count and every reply's header and addressing checked.",
+         "loopback only; SO_REUSEPORT 4-tuple affinity and in-order handling per socket (sentinel discipline); cookies from a real key exchange with the target", "3/C09"),
 }
 
 NOT_APPLICABLE = {
